@@ -41,10 +41,7 @@ def run(ctx):
                       'domain separator message is %s' % short(d, 80), ctx.where(slots['domsep'][0].body, slots['domsep'][0].bb))
 
     # ---- R-C19-2 nonce derivation
-    nb = [b for b in ctx.facts.fns() if b.path.endswith('utils::generic::nonce')]
-    if not nb:
-        # structural fallback: the crate function calling Blake2bMac::new_with_salt_and_personal
-        nb = [b for (b, bb, t) in ctx.facts.callers_decl.get('blake2::Blake2bMac::<OutSize>::new_with_salt_and_personal', [])]
+    nb = [ctx.facts.fn[x] for x in sorted(R.nonce_fns(ctx))]
     if not nb:
         rep.anchor_missing('R-C19-2', 'R-C19-2/nonce-fn', 'no function constructs a Blake2b MAC with salt and personalisation')
     else:
@@ -118,7 +115,7 @@ def run(ctx):
     g = weights.gate(ctx, 'R-C19-2')
     if g is not None:
         v = g[0]
-        labs = sorted({ctx.args(v, bb)[1][1] for bb, t in ctx.calls(v) if callee_name(t).split('::')[-1] == 'nonce' and ctx.args(v, bb)[1].tag == 'const'})
+        labs = sorted({ctx.args(v, bb)[1][1] for bb, t in ctx.calls(v) if callee_name(t) in R.nonce_fns(ctx) and ctx.args(v, bb)[1].tag == 'const'})
         rep.check(labs == sorted(wire.NONCE_LABELS), 'R-C19-2', 'R-C19-2/labels/recoverer', 'recoverer nonce labels are %s' % [l.decode() for l in labs], 'recoverer nonce labels are %s' % labs, ctx.where(v))
 
     # ---- R-C19-3 generators
